@@ -10,6 +10,7 @@ import (
 	"go/types"
 	"os"
 	"sort"
+	"strconv"
 	"strings"
 
 	"golang.org/x/tools/go/packages"
@@ -40,6 +41,13 @@ type Prog struct {
 	allMod      []*ssa.Function
 	cellStores  map[string][]*ssa.Store
 	onceField   map[*ssa.FieldAddr]*ssa.Store
+	// adopted: a function whose only use is as a value in one function (a
+	// former closure turned into a named method) -> that function
+	adopted      map[*ssa.Function]*ssa.Function
+	adoptees     map[*ssa.Function][]*ssa.Function
+	adoptBinding map[*ssa.Function]ssa.Value // receiver the method value was bound to
+	adoptSite    map[*ssa.Function]ssa.Instruction
+	closureOrd   map[*ssa.Function]int // ordinal among the closure-like children of its encloser
 }
 
 // Short converts a full package path of the module to its short name.
@@ -214,10 +222,14 @@ func (p *Prog) fnNameRaw(fn *ssa.Function) string {
 	if fn == nil {
 		return "<nil>"
 	}
-	if fn.Parent() != nil {
-		// closure: parent name + own suffix
+	if enc := p.Encloser(fn); enc != nil {
+		// closure (or a method that took a closure's place): encloser's name +
+		// ordinal among the encloser's closure-like children in source order
+		if o, ok := p.closureOrd[fn]; ok {
+			return p.FnName(enc) + "$" + strconv.Itoa(o)
+		}
 		name := fn.Name() // e.g. run$3
-		if i := strings.LastIndex(name, "$"); i >= 0 {
+		if i := strings.LastIndex(name, "$"); i >= 0 && fn.Parent() != nil {
 			return p.FnName(fn.Parent()) + name[i:]
 		}
 	}
@@ -250,15 +262,40 @@ func (p *Prog) Fn(name string) *ssa.Function { return p.byName[name] }
 // source order.
 func Closures(fn *ssa.Function) []*ssa.Function {
 	var out []*ssa.Function
+	seen := map[*ssa.Function]bool{fn: true}
 	var rec func(f *ssa.Function)
 	rec = func(f *ssa.Function) {
-		for _, a := range f.AnonFuncs {
+		kids := append([]*ssa.Function(nil), f.AnonFuncs...)
+		if deepProg != nil {
+			// a method whose only use is as a value created in f stands where
+			// a function literal stood
+			kids = append(kids, deepProg.adoptees[f]...)
+			sort.SliceStable(kids, func(i, j int) bool { return deepProg.closureOrd[kids[i]] < deepProg.closureOrd[kids[j]] })
+		}
+		for _, a := range kids {
+			if seen[a] {
+				continue
+			}
+			seen[a] = true
 			out = append(out, a)
 			rec(a)
 		}
 	}
 	rec(fn)
 	return out
+}
+
+// Encloser is the function a closure was written in: its parent, or for a
+// method that took a closure's place the function that creates the method
+// value.
+func (p *Prog) Encloser(fn *ssa.Function) *ssa.Function {
+	if fn == nil {
+		return nil
+	}
+	if par := fn.Parent(); par != nil {
+		return par
+	}
+	return p.adopted[fn]
 }
 
 // Pos renders a position relative to the repository root, file:line.
